@@ -279,7 +279,12 @@ func appendPre(dst, src *View, unalignedInPlace bool) bool {
 		lo, hi := d.Off+d.Len, d.Off+d.Cap
 		slo, shi := s.Off, s.Off+s.Len
 		if slo < hi && lo < shi {
-			return false
+			// overlapping the spare capacity is outside C03's domain. For the
+			// history property the part of it that is plain Go-slice behaviour is
+			// admitted: a source that starts at or after the position the append
+			// writes to (a forward element copy then never reads a sample it
+			// has already written, exactly like append's copy of a snapshot)
+			return unalignedInPlace && slo >= lo
 		}
 	}
 	return true
